@@ -208,17 +208,23 @@ def collect(ctx: Ctx, quick: bool):
     clear_typelib_caches()
     events, meta = [], []
     allchains = chains(quick)
+    ncase = [0]
     bases = list(BASES.items())
     for (bname, base), chain in itertools.product(bases, allchains):
         if quick and len(chain) >= 2 and rng.random() < 0.5:
             continue
         env = Env(case_defs(chain, base), tag="w")
+        ncase[0] += 1
+        if ncase[0] % 3 == 0:
+            # the user's modules live in a directory whose name contains the library's name (typelib_adapters/, my-typelib-app/)
+            env.filedir = "/verif-generated/typelib_adapters"
         env.build(None, "m1")
         m1 = env.modules["m1"]
         exec(compile(CALLERS, env.filename("m1"), "exec", dont_inherit=True), m1.__dict__)
         other = env.modules.get("m2")
         if other is not None:
             exec(compile(CALLERS, env.filename("m2"), "exec", dont_inherit=True), other.__dict__)
+            other.__dict__["wt"] = m1            # `import <m1> as wt` in the other module
         for pos, Wt, Tt in positions(chain, base):
             try:
                 annW, annT = env.annotation(Wt), env.annotation(Tt)
@@ -245,6 +251,9 @@ def collect(ctx: Ctx, quick: bool):
                     # a string that names the module twice: "m.W | m.Zed", against Union[T, Zed]
                     origins.append(("string_qualified_union", lambda fn, x: fn(f"{m1.__name__}.REFNAME | {m1.__name__}.Zed", x)))
                     if other is not None:
+                        # a name dotted through an import alias of the issuing module ("wt.W" after `import m1 as wt`)
+                        origins.append(("string_via_import_alias",
+                                        lambda fn, x: (other.ma if fn is m1.ma else other.um)("wt.REFNAME", x)))
                         # a qualified name inside brackets, issued from another module that imports the defining one
                         origins.append(("string_list_of_qualified",
                                         lambda fn, x: (other.ma if fn is m1.ma else other.um)(f"list[{m1.__name__}.REFNAME]", [x])))
